@@ -334,6 +334,9 @@ func zzRunHist(toks []string) string {
 // TestVerifC08 runs the operation stream; VERIF_START skips lines already answered by a crashed predecessor.
 func TestVerifC08(t *testing.T) {
 	zzInitTypes()
+	if len(zzDecoys) == 0 {
+		t.Fatal("decoys")
+	}
 	out := vh.OpenOut()
 	defer out.Close()
 	start, _ := strconv.Atoi(os.Getenv("VERIF_START"))
